@@ -656,6 +656,54 @@ def listing_uses_final(ctx):
                         f.file, f.line)
 
 
+def text_codec_agreement(ctx):
+    """Strings in the literal and data sections are written with one text
+    codec and must be read back with the same one (bytes.decode() without
+    an argument is UTF-8)."""
+    repo = ctx.repo
+    rule = 'C09.section-text-codec-agrees'
+    ctx.rule(rule, 'every str.encode(...) in QvmCode.__bytes__ and every '
+             'bytes.decode(...) in qvm/module.py names its codec explicitly, '
+             'and readers and writer use the same codec')
+    w = repo.func('qbee.qvm_codegen', 'QvmCode.__bytes__')
+    enc = []
+    for c_ in ast.walk(w.node):
+        if isinstance(c_, ast.Call) and isinstance(c_.func, ast.Attribute) \
+                and c_.func.attr == 'encode':
+            enc.append((const(c_.args[0]) if c_.args else None, c_.lineno))
+    dec = []
+    m = repo.module('qvm.module')
+    for f in repo.all_functions():
+        if f.module is not m:
+            continue
+        for c_ in ast.walk(f.node):
+            if isinstance(c_, ast.Call) and \
+                    isinstance(c_.func, ast.Attribute) and \
+                    c_.func.attr == 'decode':
+                dec.append((const(c_.args[0]) if c_.args else None,
+                            c_.lineno, f))
+    if not enc or not dec:
+        raise AnalysisError('anchor vanished: text codecs of the sections')
+    codecs = {e[0] for e in enc}
+    ctx.instance(rule, f'{w.file}:QvmCode.__bytes__:encode',
+                 sample={'codecs': sorted(map(str, codecs))})
+    for cd, line in enc:
+        if cd is None:
+            ctx.finding(rule, f'{w.file}:QvmCode.__bytes__:encode',
+                        'a section string is encoded without naming the '
+                        'codec', w.file, line)
+    for cd, line, f in dec:
+        construct = f'{f.file}:{f.qualname}:decode'
+        ctx.instance(rule, construct, sample={'codec': cd})
+        if cd is None or cd not in codecs:
+            ctx.finding(rule, construct,
+                        f'{f.qualname} decodes section text with '
+                        f'{cd or "the default codec (UTF-8)"}; the writer '
+                        f'uses {sorted(map(str, codecs))}: a non-ASCII '
+                        f'character does not survive the module file',
+                        f.file, line)
+
+
 def assembler_operand_order(ctx):
     """An instruction with several operands is packed in the order of its
     operands (the order of the listing, of instrs.def_instr and of the
@@ -803,6 +851,7 @@ def run(ctx):
     listing_uses_final(ctx)
     disassembler_operands_unaltered(ctx)
     assembler_operand_order(ctx)
+    text_codec_agreement(ctx)
     return ('Sibling-agreement analysis of the three instruction codecs '
             '(QvmCode.assembled if/elif chain evaluated per opcode, '
             'qvm.instrs Operand classes, QModule.disassemble chain), of the '
